@@ -100,16 +100,21 @@ theorem bind_ok_id {α} (x : Py α) : (x >>= fun t => Except.ok t) = x := by cas
 /-- the dispatch chain of the inner loop for ANY four nested functions: `atr_req` first, then the technology
 letters A, B, F, else UnsupportedTargetError -/
 theorem sense_dispatch_table (tg : Int) (t : RT) (d a b f : Int → Py (Option Int)) :
-    Gen.Fn.clf_sense_dispatch tg t.atr t.isA t.isB t.isF d a b f
+    Gen.Fn.clf_sense_dispatch tg t.atr t.brty d a b f
       = match t.spec with
         | .dep _ => d tg
         | .a _ => a tg
         | .b => b tg
         | .f => f tg
         | _ => .error .unsupportedTarget := by
-  obtain ⟨atr, sel, isA, isB, isF⟩ := t
+  obtain ⟨atr, sel, brty⟩ := t
   unfold Gen.Fn.clf_sense_dispatch RT.spec
-  cases atr <;> cases isA <;> cases isB <;> cases isF <;> simp [bind_ok_id]
+  have e : ∀ x, PyFn.strEndsWith brty x = endsWith brty x := fun _ => rfl
+  simp only [e]
+  cases atr with
+  | some x => simp [bind_ok_id]
+  | none =>
+    cases endsWith brty "A" <;> cases endsWith brty "B" <;> cases endsWith brty "F" <;> simp [bind_ok_id]
 
 theorem sense_choice (t : RT) :
     senseChoice t = match t.spec with
@@ -148,14 +153,14 @@ dispatch chain over the regenerated checks -/
 theorem sense_one_bridge (t : RT) (s : St) : senseOne t.spec s = senseOneGen t s := by
   unfold senseOneGen
   rw [sense_choice]
-  obtain ⟨atr, sel, isA, isB, isF⟩ := t
+  obtain ⟨atr, sel, brty⟩ := t
   unfold RT.spec
   cases atr with
   | some a => simp [sense_dep_bridge]
   | none =>
-    cases isA <;> cases isB <;> cases isF <;> simp only [if_true, Bool.false_eq_true, if_false] <;>
+    cases endsWith brty "A" <;> cases endsWith brty "B" <;> cases endsWith brty "F" <;>
+      simp only [if_true, Bool.false_eq_true, if_false] <;>
       first | exact sense_tta_bridge sel s | simp [senseOne]
-
 
 theorem sense_found_bridge (r : Option (Nat × Found)) :
     (if Gen.Fn.clf_sense_found (r.map (fun x => (x.1 : Int))) = true then r else none) = r := by
@@ -240,9 +245,9 @@ theorem sense_iters_loop (tl : List RT) (iters : Int) (k : Nat) :
 
 
 theorem rt_spec_ne (t : RT) : (t.spec == TgtSpec.notTarget) = false := by
-  obtain ⟨atr, sel, a, b, f⟩ := t
+  obtain ⟨atr, sel, brty⟩ := t
   unfold RT.spec
-  cases atr <;> cases a <;> cases b <;> cases f <;> rfl
+  cases atr <;> cases endsWith brty "A" <;> cases endsWith brty "B" <;> cases endsWith brty "F" <;> rfl
 
 theorem arg_check_bridge (tl : List (Option RT)) :
     argCheckGen (tl.map Option.isSome) = if (tl.map argSpec).any (· == .notTarget) then .error .value else .ok () := by
@@ -275,7 +280,8 @@ decisions -/
 theorem sense_bridge (device : Int) (tl : List (Option RT)) (iters : Int) (s : St) :
     sense (tl.map argSpec) iters s = senseGen (some device) tl iters s := by
   unfold sense senseGen
-  rw [arg_check_bridge]
+  have hforget : tgtOfNone Gen.Fn.clf_sense_forget = Tgt.none := rfl
+  rw [arg_check_bridge, hforget]
   cases hany : (tl.map argSpec).any (· == .notTarget)
   · simp only [Bool.false_eq_true, if_false, Gen.Fn.clf_sense_nodev]
     rcases simpleCall .mute { s with target := .none } with ⟨q, s1⟩
@@ -335,7 +341,8 @@ theorem listen_dep_len_bridge (n : Nat) :
 theorem listen_bridge (device : Int) (atrRes : Option Bytes) (brty : String) (s : St) :
     listen (ltOf atrRes brty) s = listenGen (some device) atrRes brty s := by
   unfold listen listenGen
-  simp only [Gen.Fn.clf_listen_nodev, listen_choice]
+  have hforget : tgtOfNone Gen.Fn.clf_listen_forget = Tgt.none := rfl
+  simp only [Gen.Fn.clf_listen_nodev, listen_choice, hforget]
   rcases simpleCall .mute { s with target := .none } with ⟨q, s1⟩
   match q with
   | .error e => rfl
@@ -618,6 +625,11 @@ theorem connect_bridge (device : Int) (o : Opts) (env : List Ans) (ts : List Boo
   rfl
 
 
+/-- `LocalTarget.brty` -/
+theorem local_brty_bridge (send recv : String) : Gen.Fn.clf_local_brty send recv = localBrty send recv := rfl
+
+example : Gen.Fn.clf_local_brty "106A" "106A" = "106A" ∧ Gen.Fn.clf_local_brty "212F" "424F" = "212F/424F" := by decide
+
 /-! ## NFC-DEP option pass-through (C19) -/
 
 /-- the pass-through of `_llcp_connect` is the reference definition: the regenerated key tuple, every key that is
@@ -696,9 +708,10 @@ example : checkTtaGen [0x44] [] = .error .protocol := by decide
 example : Gen.Fn.clf_dep_checks (List.replicate 15 0) = .error .value := by decide
 example : Gen.Fn.clf_dep_checks (List.replicate 16 0) = .ok () := by decide
 example : Gen.Fn.clf_dep_checks (List.replicate 65 0) = .error .value := by decide
-example : senseChoice ⟨none, [], true, false, false⟩ = .ok (some 1) := by decide
-example : senseChoice ⟨some [1], [], true, false, false⟩ = .ok (some 4) := by decide
-example : senseChoice ⟨none, [], false, false, false⟩ = .error .unsupportedTarget := by decide
+example : senseChoice ⟨none, [], "106A"⟩ = .ok (some 1) := by decide
+example : senseChoice ⟨some [1], [], "106A"⟩ = .ok (some 4) := by decide
+example : senseChoice ⟨none, [], "424F"⟩ = .ok (some 3) := by decide
+example : senseChoice ⟨none, [], "106"⟩ = .error .unsupportedTarget := by decide
 example : Gen.Fn.clf_sense_iters 3 = [0, 1, 2] := by decide
 example : Gen.Fn.clf_sense_iters (-4) = [0] := by decide
 example : Gen.Fn.clf_sense_sleep 1 3 = true ∧ Gen.Fn.clf_sense_sleep 2 3 = false := by decide
